@@ -48,6 +48,21 @@ def converters_from_data_files():
     return out
 
 
+def inventories_from_data_files():
+    """independent reading of the shipped diacritics / vowels / tones files (one item per line, utf-8, NFC): diacritics are written
+    with a leading dash that is not part of them, vowels that are also listed as diacritics are left out, tones are taken as written"""
+    import hashlib
+    import unicodedata
+    base = os.path.join(common.REPO, 'src', 'lingpy', 'data', 'models', 'dvt')
+
+    def text(name):
+        return unicodedata.normalize('NFC', open(os.path.join(base, name), encoding='utf-8-sig').read()).replace('\n', '')
+    dia = ''.join(ch for ch in text('diacritics') if ch != '-')
+    vow = ''.join(ch for ch in text('vowels') if ch not in dia)
+    ton = text('tones')
+    return {k: hashlib.sha256(repr(v).encode()).hexdigest() for k, v in (('diacritics', dia), ('vowels', vow), ('tones', ton))}
+
+
 def cache_files(home):
     return sorted(glob.glob(os.path.join(home, 'lingpy', '*', '*.pkl')))
 
@@ -109,6 +124,13 @@ def run(chk):
         diff = sorted(m for m, dg in fresh.get('converters', {}).items() if m in ref_conv and ref_conv[m] != dg)
         chk.obligation('oracle:converters of a fresh build == the shipped converter files read independently', 'correspondence', not diff,
                        'models compared=%d differing=%r' % (len([m for m in fresh.get('converters', {}) if m in ref_conv]), diff))
+        ref_inv = inventories_from_data_files()
+        diff_inv = sorted(k for k, dg in fresh.get('inventories', {}).items() if ref_inv.get(k) != dg)
+        chk.obligation('oracle:diacritic / vowel / tone inventories of a fresh build == the shipped dvt files read independently', 'correspondence', not diff_inv,
+                       'differing=%r' % diff_inv)
+        if diff_inv:
+            chk.violation('a start on an absent cache yields %s that differ from the shipped data file' % ', '.join(diff_inv),
+                          {'kind': 'cache', 'faults': [['<all>', 'nodir', 0]], 'inventories': diff_inv, 'why': 'inventory built from the data files differs from an independent reading of lingpy/data/models/dvt/*'})
         if diff:
             chk.violation('a start on an absent cache yields a converter for model %r that differs from its shipped data file' % diff[0],
                           {'kind': 'cache', 'faults': [['<all>', 'nodir', 0]], 'models': diff, 'why': 'converter built from the data files differs from an independent reading of lingpy/data/models/<model>/converter'})
